@@ -794,6 +794,23 @@ Lemma update_H_overwrite p q n l b b' r :
 Proof.
   unfold update_H. destruct (Nat.eqb l (upd_row n) && Nat.eqb r O); reflexivity.
 Qed.
+
+(* any sequence of in-place updates equals the last update alone (nothing accumulates or survives) *)
+Lemma update_H_seq_frame ps n l b b' r :
+  Nat.eqb l (upd_row n) && Nat.eqb r O = false ->
+  fold_left (update_H R) ps F n l b b' r = F n l b b' r.
+Proof.
+  revert F. induction ps as [|p ps IH]; intros G H; simpl. reflexivity.
+  rewrite IH by exact H. unfold update_H. rewrite H. reflexivity.
+Qed.
+
+Lemma update_H_sequence ps q n l b b' r :
+  fold_left (update_H R) (ps ++ [q]) F n l b b' r = update_H R F q n l b b' r.
+Proof.
+  rewrite fold_left_app. simpl. unfold update_H at 1 3.
+  destruct (Nat.eqb l (upd_row n) && Nat.eqb r O) eqn:E. reflexivity.
+  apply update_H_seq_frame. exact E.
+Qed.
 End UpdateLocal.
 
 (* ---------- the premises are satisfiable: Gaussian integers ---------- *)
